@@ -1,6 +1,15 @@
-import LocustModel.Store.Crash
+import LocustModel.Lemmas.C09Reach
+import LocustModel.Lemmas.C09Example
+import LocustModel.Lemmas.C09Deletes
 /-
   C09 — recovery after a crash at any point is possible and atomic.  Property theorems only.
+
+  Model: Store/Crash.lean (file system, effects, plans of ingest / flush / recovery), Store/CrashSpec.lean (`Dur`, `Reach`).
+  `Reach w`: `w` is reachable by a history over {open, ingest, flush with any accepted compaction decision, stop} in which
+  the process may be killed after ANY prefix of the primitive effects of any operation — including the effects of a recovery
+  — any number of times; effects of the tasks of one phase interleave arbitrarily; directories are listed in any order.
+  `w.log` = acknowledged requests ++ those in-flight requests of earlier crashes whose segment had been renamed.
+  No bound on the length of histories, the number of tables / rows / partitions / crashes.
 -/
 namespace LM.C09
 open LM.Crash
@@ -11,5 +20,210 @@ theorem C09_store_final_untouched (fs : FS) (b : Base) (f : File) (k : Nat) (hk 
   have : k = 0 ∨ k = 1 ∨ k = 2 ∨ k = 3 ∨ k = 4 := by omega
   rcases this with h | h | h | h | h <;> subst h <;>
     simp [storeEffs, applyEffs, applyEff, FS.set, finP, tmpP]
+
+example : applyEffs (FS.empty.set (finP (.wal 3)) (some .torn)) ((storeEffs (.wal 3) (.wal 3 ⟨[]⟩)).take 4) (finP (.wal 3))
+    = some .torn := C09_store_final_untouched _ _ _ 4 (by omega)
+
+/-- **Invariant `Durable`** at every effect prefix of every history: the catalogue on disk, the partition files it references
+    (all present and complete) and the segments with id ≥ cursor (contiguous, complete, under their final names) make up a
+    state `m` whose content is exactly the log; while the process is up `m` is its memory.  Files not mentioned — temp files,
+    orphans, merged-away partitions — are unconstrained. -/
+theorem C09_durable (w : World) (h : Reach w) : ∃ m, Dur w.fs w.log m ∧ ∀ m', w.mem = some m' → m' = m :=
+  h.dur
+
+/-- non-vacuity: the concrete history `exOps` (3 ingestions, one into two tables; 2 flushes) is reachable, and its durable
+    state holds three partitions and one unflushed segment -/
+example : ∃ fs, Reach ⟨fs, some exMemAfter, exLogAfter⟩ ∧ exMemAfter.parts.length = 3 ∧ exMemAfter.pending.length = 1 ∧
+    exMemAfter.cursor = 2 :=
+  let ⟨fs, h⟩ := ex_history
+  ⟨fs, h, by decide, by decide, by decide⟩
+
+/-- **Recovery is possible** in every reachable world (in particular after every crash prefix, also of a recovery): the
+    model's `recover` is a total function and returns `ok` — no fault on the opening thread (`panic`), none in a pool job
+    (`hang`) — whatever the order of the directory listing; and the content of every table is exactly the log: nothing
+    lost, nothing duplicated, order kept. -/
+theorem C09_recovery (w : World) (h : Reach w) (ls : List Path) (hls : Listing w.fs ls) :
+    ∃ m dels, recover w.fs ls = .ok (m, dels) ∧ ∀ t, m.content t = ackedRows w.log t := by
+  obtain ⟨m, hd, _⟩ := h.dur
+  obtain ⟨dels, hr, _⟩ := hd.recover hls
+  exact ⟨m, dels, hr, hd.content⟩
+
+/-- non-vacuity: a reachable world (process killed, temp files around) with a directory listing -/
+example : ∃ w ls, Reach w ∧ w.mem = none ∧ Listing w.fs ls ∧ w.fs (tmpP (.part "t" 3)) = some .torn := by
+  obtain ⟨fs, h⟩ := ex_history
+  have hc := Reach.crash (op := exLast) (pre := (exTrace exMemAfter exLast).take 7) h (ex_plan (by decide)) ex_trace
+    (List.take_prefix _ _)
+  obtain ⟨ls, hls⟩ := hc.listing
+  refine ⟨_, ls, hc, rfl, hls, ?_⟩
+  have : (exTrace exMemAfter exLast).take 7 = (exTrace exMemAfter exLast).take 6 ++ [.create (.part "t" 3)] := by decide
+  simp only [this, applyEffs_append]
+  simp [applyEff]
+
+/-- **C09_crash**: for every history, every operation started after it, every interleaving of the operation's effects and
+    EVERY PREFIX of that trace: recovery of the file system left by the prefix succeeds, and the content is the acknowledged
+    requests, or those plus the request in flight — the same alternative for all tables. -/
+theorem C09_crash (fs : FS) (m : Mem) (log : List Req) (h : Reach ⟨fs, some m, log⟩)
+    (op : Op) (phs : List Phase) (m' : Mem) (new : List Req) (hp : op.plan m = some (phs, m', new))
+    (tr : List Eff) (htr : PhasesTrace phs tr) (pre : List Eff) (hpre : pre <+: tr)
+    (ls : List Path) (hls : Listing (applyEffs fs pre) ls) :
+    ∃ mr dels, recover (applyEffs fs pre) ls = .ok (mr, dels) ∧
+      ((∀ t, mr.content t = ackedRows log t) ∨ (∀ t, mr.content t = ackedRows (log ++ new) t)) := by
+  obtain ⟨m0, hd, hm⟩ := h.dur
+  have := hm m rfl
+  subst this
+  obtain ⟨md, hd', _, hs⟩ := (hd.op hp htr).1 pre hpre
+  obtain ⟨dels, hr, _⟩ := hd'.recover hls
+  refine ⟨md, dels, hr, ?_⟩
+  rcases hs with hs | hs
+  · left; intro t; have := hd'.content t; rwa [hs, List.append_nil] at this
+  · right; intro t; have := hd'.content t; rwa [hs] at this
+
+/-- non-vacuity of `C09_crash`: the history `exOps`, then a flush that COMPACTS (partitions 0, 1, 2 of `t` into 3), killed
+    after 7 effects of its sequential schedule — inside the store of the merged partition, whose temp file is left torn;
+    the theorem applies and the recovered table `t` holds rows 1, 2, 3, 5 once each. -/
+example : ∃ fs ls, Reach ⟨fs, some exMemAfter, exLogAfter⟩ ∧
+    Listing (applyEffs fs ((exTrace exMemAfter exLast).take 7)) ls ∧
+    applyEffs fs ((exTrace exMemAfter exLast).take 7) (tmpP (.part "t" 3)) = some .torn ∧
+    ∃ mr dels, recover (applyEffs fs ((exTrace exMemAfter exLast).take 7)) ls = .ok (mr, dels) ∧
+      mr.content "t" = ["1", "2", "3", "5"] ∧ mr.content "u" = ["4"] := by
+  obtain ⟨fs, h⟩ := ex_history
+  have hp : exLast.plan exMemAfter = some (exPhases exMemAfter exLast, exMem exMemAfter exLast, exNew exMemAfter exLast) :=
+    ex_plan (by decide)
+  have hpre : (exTrace exMemAfter exLast).take 7 <+: exTrace exMemAfter exLast := List.take_prefix _ _
+  obtain ⟨ls, hls⟩ := (Reach.crash h hp ex_trace hpre).listing
+  obtain ⟨mr, dels, hr, hc⟩ := C09_crash fs _ _ h exLast _ _ _ hp _ ex_trace _ hpre ls hls
+  refine ⟨fs, ls, h, hls, ?_, mr, dels, hr, ?_⟩
+  · have : (exTrace exMemAfter exLast).take 7 = (exTrace exMemAfter exLast).take 6 ++ [.create (.part "t" 3)] := by decide
+    simp only [this, applyEffs_append]
+    simp [applyEff]
+  · have hnew : exNew exMemAfter exLast = [] := by decide
+    have h1 : ∀ t, mr.content t = ackedRows exLogAfter t := by
+      rcases hc with hc | hc
+      · exact hc
+      · intro t; rw [hc t, hnew, List.append_nil]
+    exact ⟨by rw [h1]; decide, by rw [h1]; decide⟩
+
+/-- **The in-flight request is taken whole or not at all**: a crash during an ingestion into any number of tables recovers
+    to the log plus the complete request in EVERY table it touched iff the rename of its segment happened, and to the log
+    alone in every table otherwise — one bit decides for all tables. -/
+theorem C09_inflight_atomic (fs : FS) (m : Mem) (log : List Req) (h : Reach ⟨fs, some m, log⟩) (r : Req)
+    (tr : List Eff) (htr : PhasesTrace (ingestPlan m r).1 tr) (pre : List Eff) (hpre : pre <+: tr)
+    (ls : List Path) (hls : Listing (applyEffs fs pre) ls) :
+    ∃ mr dels, recover (applyEffs fs pre) ls = .ok (mr, dels) ∧
+      (Eff.rename (.wal m.nextWal) ∈ pre → ∀ t, mr.content t = ackedRows log t ++ r.rowsOf t) ∧
+      (Eff.rename (.wal m.nextWal) ∉ pre → ∀ t, mr.content t = ackedRows log t) := by
+  obtain ⟨m0, hd, hm⟩ := h.dur
+  have := hm m rfl
+  subst this
+  have htr' := ingest_trace htr
+  subst htr'
+  rcases hd.wal_phase r hpre with ⟨hn, hd'⟩ | ⟨_, hy, hd'⟩
+  · obtain ⟨dels, hr, _⟩ := hd'.recover hls
+    exact ⟨_, dels, hr, fun hc => absurd hc hn, fun _ => hd'.content⟩
+  · obtain ⟨dels, hr, _⟩ := hd'.recover hls
+    refine ⟨_, dels, hr, fun _ t => ?_, fun hc => absurd hy hc⟩
+    rw [hd'.content t]; simp [ackedRows, rowsOfReqs_append, rowsOfReqs_single]
+
+/-- non-vacuity of `C09_inflight_atomic`: an ingestion into two tables killed just before / just after the rename. -/
+example : ∃ fs, Reach ⟨fs, some exMemAfter, exLogAfter⟩ ∧
+    (let tr := exTrace exMemAfter exLastIngest
+     PhasesTrace (ingestPlan exMemAfter ⟨[⟨"t", ["6"]⟩, ⟨"u", ["7", "8"]⟩]⟩).1 tr ∧
+     Eff.rename (.wal exMemAfter.nextWal) ∉ tr.take 4 ∧ Eff.rename (.wal exMemAfter.nextWal) ∈ tr.take 5 ∧
+     tr.take 4 <+: tr ∧ tr.take 5 <+: tr) := by
+  obtain ⟨fs, h⟩ := ex_history
+  exact ⟨fs, h, PhasesTrace.seq _, by decide, by decide, List.take_prefix _ _, List.take_prefix _ _⟩
+
+/-- **Recovering again changes nothing**, and neither does a crash at any prefix of the recovery's own effects (it deletes
+    stale temp files of `wal/` and segments below the cursor, in any order): the next recovery returns the very same state,
+    has nothing to delete that the first one did not already set out to delete, and after a completed recovery nothing. -/
+theorem C09_recover_idempotent (w : World) (h : Reach w) (ls : List Path) (hls : Listing w.fs ls)
+    (m : Mem) (dels : List Path) (hr : recover w.fs ls = .ok (m, dels))
+    (tr : List Eff) (htr : PoolTrace (recoverPhase dels).tasks tr) (pre : List Eff) (hpre : pre <+: tr)
+    (ls' : List Path) (hls' : Listing (applyEffs w.fs pre) ls') :
+    ∃ dels', recover (applyEffs w.fs pre) ls' = .ok (m, dels') ∧ (∀ p ∈ dels', p ∈ dels) ∧ (pre = tr → dels' = []) := by
+  obtain ⟨m0, hd, _⟩ := h.dur
+  exact hd.recover_idem hls hr htr hpre hls'
+
+/-- non-vacuity of `C09_recover_idempotent`: after the crash above a recovery succeeds, has a (sequential) trace of its
+    deletions, every prefix of which has a listing. -/
+example : ∃ w ls m dels tr, Reach w ∧ Listing w.fs ls ∧ recover w.fs ls = .ok (m, dels) ∧
+    PoolTrace (recoverPhase dels).tasks tr ∧ ∀ pre, pre <+: tr → ∃ ls', Listing (applyEffs w.fs pre) ls' := by
+  obtain ⟨fs, h⟩ := ex_history
+  have hc := Reach.crash (op := exLast) (pre := (exTrace exMemAfter exLast).take 7) h (ex_plan (by decide)) ex_trace
+    (List.take_prefix _ _)
+  obtain ⟨ls, hls⟩ := hc.listing
+  obtain ⟨m, dels, hr, _⟩ := C09_recovery _ hc ls hls
+  exact ⟨_, ls, m, dels, _, hc, hls, hr, PoolTrace.seq _, fun pre _ => listing_effs pre hls⟩
+
+/-- **No row is duplicated** (nor lost): after recovery every row occurs in a table exactly as often as in the log. -/
+theorem C09_no_duplicate (w : World) (h : Reach w) (ls : List Path) (hls : Listing w.fs ls) (m : Mem) (dels : List Path)
+    (hr : recover w.fs ls = .ok (m, dels)) (t : Tbl) (row : Row) :
+    (m.content t).count row = (ackedRows w.log t).count row := by
+  obtain ⟨m', dels', hr', hc⟩ := C09_recovery w h ls hls
+  rw [hr'] at hr
+  simp only [Except.ok.injEq, Prod.mk.injEq] at hr
+  rw [← hr.1, hc t]
+
+/-- **Files the catalogue does not reference are never consulted**: change, add or delete temp files (torn or complete)
+    and partition files outside the catalogue at will — recovery returns the same state.  (Since the fix of finding
+    C09-wal-temp this includes the temp files of `wal/`.) -/
+theorem C09_garbage_ignored (w : World) (h : Reach w) (ls : List Path) (hls : Listing w.fs ls) (m : Mem) (dels : List Path)
+    (hr : recover w.fs ls = .ok (m, dels)) (fs' : FS)
+    (hcat : fs' (finP .catalogue) = w.fs (finP .catalogue))
+    (hwal : ∀ k, fs' (finP (.wal k)) = w.fs (finP (.wal k)))
+    (hparts : ∀ p ∈ m.parts, fs' (finP (partBase p)) = w.fs (finP (partBase p)))
+    (ls' : List Path) (hls' : Listing fs' ls') :
+    ∃ dels', recover fs' ls' = .ok (m, dels') := by
+  obtain ⟨m0, hd, _⟩ := h.dur
+  obtain ⟨dels0, hr0, _⟩ := hd.recover hls
+  rw [hr0] at hr
+  simp only [Except.ok.injEq, Prod.mk.injEq] at hr
+  obtain ⟨rfl, rfl⟩ := hr
+  have hd' : Dur fs' w.log m0 := hd.congr hcat hparts (fun k => Or.inl (hwal k))
+  obtain ⟨dels', hr', _⟩ := hd'.recover hls'
+  exact ⟨dels', hr'⟩
+
+/-- **Every delete finds its file** (`remove_file` cannot fail, so `delete(..).unwrap()` cannot panic): in every history,
+    for every operation and every interleaving of its effects, each `remove p` is applied when `p` exists — the merged-away
+    partition files when `delete_orphaned_partitions` runs, the segments `cursor..next` when `delete_wal_segments` runs.
+    (A flush after a recovery that had replayed a segment from its temp name violated exactly this before the fix.) -/
+theorem C09_deletes_find_file (fs : FS) (m : Mem) (log : List Req) (h : Reach ⟨fs, some m, log⟩)
+    (op : Op) (phs : List Phase) (m' : Mem) (new : List Req) (hp : op.plan m = some (phs, m', new))
+    (tr : List Eff) (htr : PhasesTrace phs tr) : RemovesExist fs tr := by
+  obtain ⟨m0, hd, hm⟩ := h.dur
+  have := hm m rfl
+  subst this
+  cases op with
+  | ingest r =>
+      obtain ⟨rfl, _, _⟩ := Op.plan_ingest hp
+      have htr' := ingest_trace htr
+      subst htr'
+      exact RemovesExist.of_none (fun p hm => by simp [storeEffs] at hm)
+  | flush comp =>
+      obtain ⟨hf, _⟩ := Op.plan_flush hp
+      exact hd.flush_removes hf htr
+
+/-- The same for the deletions of a recovery (stale temp files of `wal/`, obsolete segments), in any order. -/
+theorem C09_recovery_deletes_find_file (w : World) (h : Reach w) (ls : List Path) (hls : Listing w.fs ls)
+    (m : Mem) (dels : List Path) (hr : recover w.fs ls = .ok (m, dels))
+    (tr : List Eff) (htr : PoolTrace (recoverPhase dels).tasks tr) : RemovesExist w.fs tr := by
+  obtain ⟨m0, hd, _⟩ := h.dur
+  exact hd.recover_removes hls hr htr
+
+/-- non-vacuity: the compacting flush of the concrete history has a plan and a trace with deletions (3 merged partitions,
+    1 segment). -/
+example : ∃ fs, Reach ⟨fs, some exMemAfter, exLogAfter⟩ ∧
+    exLast.plan exMemAfter = some (exPhases exMemAfter exLast, exMem exMemAfter exLast, exNew exMemAfter exLast) ∧
+    PhasesTrace (exPhases exMemAfter exLast) (exTrace exMemAfter exLast) ∧
+    ((exTrace exMemAfter exLast).filter (fun e => match e with | .remove _ => true | _ => false)).length = 4 := by
+  obtain ⟨fs, h⟩ := ex_history
+  exact ⟨fs, h, ex_plan (by decide), ex_trace, by decide⟩
+
+/-- non-vacuity: garbage that differs — a torn temp segment and an orphan partition file added to a reachable state. -/
+example : ∃ w fs', Reach w ∧ fs' (finP .catalogue) = w.fs (finP .catalogue) ∧ (∀ k, fs' (finP (.wal k)) = w.fs (finP (.wal k))) ∧
+    fs' (tmpP (.wal 9)) = some .torn ∧ fs' (finP (.part "zz" 7)) = some (.part ["x"]) ∧ fs' ≠ w.fs :=
+  ⟨_, (FS.empty.set (tmpP (.wal 9)) (some .torn)).set (finP (.part "zz" 7)) (some (.part ["x"])), Reach.init,
+    by simp [FS.set, FS.empty, finP, tmpP], by simp [FS.set, FS.empty, finP, tmpP], by simp [FS.set, finP, tmpP],
+    by simp [FS.set], fun h => by have := congrFun h (tmpP (.wal 9)); simp [FS.set, FS.empty, finP, tmpP] at this⟩
 
 end LM.C09
